@@ -118,6 +118,15 @@ THEOREMS = [
     "JanetModel.Props.C15.skeleton_janet_quick_asm_ok",
     "JanetModel.Props.C15.skeleton_janetc_check_nil_form_ok",
     "JanetModel.Props.C15.skeleton_janetc_call_selection_ok",
+    "JanetModel.Props.C15.skeleton_janetc_movenear_ok",
+    "JanetModel.Props.C15.skeleton_janetc_regnear_ok",
+    "JanetModel.Props.C15.skeleton_janetc_emit_sss_ok",
+    "JanetModel.Props.C15.skeleton_emit2s_ok",
+    "JanetModel.Props.C15.movenear_ops_ok",
+    "JanetModel.Spec.load_step",
+    "JanetModel.Spec.regnear_exec",
+    "JanetModel.Spec.opdVal_set",
+    "JanetModel.Spec.operands_loaded",
     "JanetModel.Props.C15.skeleton_names_ok",
     "JanetModel.Props.C15.special_ops_ok",
     "JanetModel.Props.C15.fixed_emit_defined",
